@@ -38,7 +38,7 @@ Operators == {
   Op("table-nonnumeric", "registry"), Op("table-unknown-interpolation", "registry"), Op("table-empty-interpolation", "registry"),
   Op("table-only-x", "registry"), Op("table-only-y", "registry"), Op("table-three-points", "registry"), Op("table-not-increasing", "registry"),
   Op("table-repeated-x", "registry"), Op("table-empty-data", "registry"),
-  Op("form-bad-signature", "registry"), Op("form-dotted-name", "registry"), Op("form-no-parameters", "registry"), Op("form-reserved-parameter", "registry"), Op("form-numeric-parameter", "registry"),
+  Op("form-bad-signature", "registry"), Op("form-dotted-name", "registry"), Op("form-no-parameters", "registry"), Op("form-reserved-parameter", "registry"), Op("form-parameters-differ-in-case", "registry"), Op("form-numeric-parameter", "registry"),
   Op("form-same-label-other-arity", "registry"),
   Op("missing-pair-section", "pair-builder"), Op("unknown-form", "pair-builder"), Op("unknown-modifier", "pair-builder"), Op("nested-unknown-form", "pair-builder"),
   Op("too-few-parameters", "pair-builder"), Op("too-many-parameters", "pair-builder"), Op("nonnumeric-parameter", "pair-builder"), Op("empty-value", "pair-builder"),
